@@ -388,7 +388,8 @@ class Parser:
         if uminus:
             self.next_token()
         value = self._current_constant()
-        if value is None and uminus:
+        if uminus and (isinstance(value, bool)
+                       or not isinstance(value, (int, float))):
             return self.token_error(
                 'Outside expressions, a minus is allowed only for numbers.')
         if value is not None:
